@@ -22,7 +22,7 @@ Proof. unfold decorate_sub. rewrite fold_sub_gen. reflexivity. Qed.
 (** publisher decorators: reverse loop, for ALL decorator lists *)
 Lemma decorate_pub_spec decs p t outs :
   decorate_pub decs p t outs =
-  (map (fun x => EPubDec x t (map fst outs)) decs ++ fst (p t outs), snd (p t outs)).
+  (map (fun x => EPubDec x t (map (fun o => fst (fst o)) outs)) decs ++ fst (p t outs), snd (p t outs)).
 Proof.
   induction decs as [|d decs IH]; simpl.
   - now destruct (p t outs).
@@ -51,7 +51,8 @@ Proof.
     + reflexivity.
 Qed.
 
-Lemma map_fst_pair {A B} (g : A -> B) l : map fst (map (fun m => (m, g m)) l) = l.
+Lemma map_fst_pair {A B C} (g : A -> B) (u : A -> C) l :
+  map (fun o => fst (fst o)) (map (fun m => (m, g m, u m)) l) = l.
 Proof. induction l; simpl; congruence. Qed.
 
 Theorem dispatch_spec h s d : dispatch h s d = spec_trace h s d.
@@ -187,7 +188,8 @@ Proof.
     + apply IH; [assumption|]. intros H. apply Hx. now right.
 Qed.
 
-(** what the state machine holds after a program = what the declarative reading of the program says *)
+(** what the state machine holds after a PLAIN program (no Stop, no failing decorator constructor)
+    = what the declarative reading of the program says *)
 Record inv (pre : list op) (st : rstate) : Prop := {
   inv_mws : mws st = regs_of pre;
   inv_pd : pubdecs st = pdecs_of pre;
@@ -196,17 +198,22 @@ Record inv (pre : list op) (st : rstate) : Prop := {
                        match spec_cfg n pre with
                        | Some h => Some (HS h (spec_started n pre))
                        | None => None end;
-  inv_nodup : NoDup (names st) }.
+  inv_nodup : NoDup (names st);
+  inv_pf : pfails st = [];
+  inv_res : residue st = [] }.
 
 Lemma inv_init : inv [] rinit.
 Proof. split; try reflexivity. constructor. Qed.
 
-Ltac snoc_simpl :=
-  unfold regs_of, pdecs_of, sdecs_of; rewrite ?flat_map_app; simpl; rewrite ?app_nil_r.
-
-Lemma inv_step pre st o : inv pre st -> inv (pre ++ [o]) (step st o).
+Lemma first_failing_none st order : pfails st = [] -> first_failing st order = None.
 Proof.
-  intros [Hm Hp Hs Hf Hn].
+  intros H. unfold first_failing, budget. rewrite H. simpl.
+  induction order as [|d l IH]; simpl; [reflexivity|assumption].
+Qed.
+
+Lemma inv_step pre st o : plain_op o = true -> inv pre st -> inv (pre ++ [o]) (step st o).
+Proof.
+  intros Hplain [Hm Hp Hs Hf Hn Hpf Hres].
   assert (Hsame : forall o', is_start o' = false -> (forall n, is_add n o' = false) ->
             forall n, match spec_cfg n (pre ++ [o']) with
                       | Some h => Some (HS h (spec_started n (pre ++ [o']))) | None => None end
@@ -218,10 +225,10 @@ Proof.
   assert (Hr : forall o', regs_of (pre ++ [o']) = regs_of pre ++ regs_of [o']) by (intros; apply flat_map_app).
   assert (Hpd : forall o', pdecs_of (pre ++ [o']) = pdecs_of pre ++ pdecs_of [o']) by (intros; apply flat_map_app).
   assert (Hsd : forall o', sdecs_of (pre ++ [o']) = sdecs_of pre ++ sdecs_of [o']) by (intros; apply flat_map_app).
-  destruct o as [h|id app|hn id app|dd|dd| |dl]; simpl.
+  destruct o as [h|id app|hn id app|dd ff|dd ff| |sn|dl]; simpl.
   - (* AddHandler *)
     destruct (find_handler (h_name h) st) eqn:F.
-    + split; simpl.
+    + split; simpl; try assumption.
       * now rewrite Hr, app_nil_r.
       * now rewrite Hpd, app_nil_r.
       * now rewrite Hsd, app_nil_r.
@@ -230,8 +237,7 @@ Proof.
         -- now destruct (spec_started n pre).
         -- destruct (N.eqb (h_name h) n) eqn:En; [|reflexivity].
            apply N.eqb_eq in En. subst n. rewrite Hf, E in F. discriminate.
-      * assumption.
-    + split; simpl.
+    + split; simpl; try assumption.
       * now rewrite Hr, app_nil_r.
       * now rewrite Hpd, app_nil_r.
       * now rewrite Hsd, app_nil_r.
@@ -243,31 +249,134 @@ Proof.
            now rewrite (spec_started_not_added _ _ E).
       * unfold names. simpl. rewrite map_app. simpl.
         apply NoDup_app_one; [assumption|]. now apply find_none_not_in.
-  - split; simpl; [now rewrite Hr, Hm | now rewrite Hpd, app_nil_r | now rewrite Hsd, app_nil_r | | assumption].
+  - split; simpl; try assumption; [now rewrite Hr, Hm | now rewrite Hpd, app_nil_r | now rewrite Hsd, app_nil_r | ].
     intros n. symmetry. now apply Hsame.
-  - split; simpl; [now rewrite Hr, Hm | now rewrite Hpd, app_nil_r | now rewrite Hsd, app_nil_r | | assumption].
+  - split; simpl; try assumption; [now rewrite Hr, Hm | now rewrite Hpd, app_nil_r | now rewrite Hsd, app_nil_r | ].
     intros n. symmetry. now apply Hsame.
-  - split; simpl; [now rewrite Hr, app_nil_r | now rewrite Hpd, Hp | now rewrite Hsd, app_nil_r | | assumption].
+  - destruct ff; [|discriminate].
+    split; simpl; try assumption; [now rewrite Hr, app_nil_r | now rewrite Hpd, Hp | now rewrite Hsd, app_nil_r | ].
     intros n. symmetry. now apply Hsame.
-  - split; simpl; [now rewrite Hr, app_nil_r | now rewrite Hpd, app_nil_r | now rewrite Hsd, Hs | | assumption].
+  - destruct ff; [|discriminate].
+    split; simpl; try assumption; [now rewrite Hr, app_nil_r | now rewrite Hpd, app_nil_r | now rewrite Hsd, Hs | ].
     intros n. symmetry. now apply Hsame.
-  - (* Start *)
-    split; simpl; [now rewrite Hr, app_nil_r | now rewrite Hpd, app_nil_r | now rewrite Hsd, app_nil_r | | ].
-    + intros n. unfold find_handler. simpl. rewrite find_map_inv.
-      2:{ intros x. unfold name_is, start_one. now destruct (hs_started x). }
-      fold (find_handler n st). rewrite Hf, spec_cfg_snoc, spec_started_snoc, spec_cfg_existsb. simpl.
-      destruct (spec_cfg n pre) eqn:E; [|reflexivity]. simpl. unfold start_one. simpl.
-      destruct (spec_started n pre); [reflexivity|]. now rewrite Hm, Hp, Hs.
-    + unfold names. simpl. rewrite map_map.
-      erewrite map_ext; [exact Hn|]. intros x. unfold hname, start_one. now destruct (hs_started x).
-  - split; simpl; [now rewrite Hr, app_nil_r | now rewrite Hpd, app_nil_r | now rewrite Hsd, app_nil_r | | assumption].
+  - (* Start: no constructor can fail *)
+    rewrite !first_failing_none by assumption.
+    destruct (first_unstarted st) as [hs0|] eqn:Fu.
+    + split; simpl; try assumption; try reflexivity;
+        [now rewrite Hr, app_nil_r | now rewrite Hpd, app_nil_r | now rewrite Hsd, app_nil_r | | ].
+      * intros n. unfold find_handler. simpl. rewrite find_map_inv.
+        2:{ intros x. unfold name_is, start_one. now destruct (hs_started x). }
+        fold (find_handler n st). rewrite Hf, spec_cfg_snoc, spec_started_snoc, spec_cfg_existsb. simpl.
+        destruct (spec_cfg n pre) eqn:E; [|reflexivity]. simpl. unfold start_one. simpl.
+        destruct (spec_started n pre); [reflexivity|]. unfold residue_of. rewrite Hres. simpl.
+        now rewrite app_nil_r, Hm, Hp, Hs.
+      * unfold names. simpl. rewrite map_map.
+        erewrite map_ext; [exact Hn|]. intros x. unfold hname, start_one. now destruct (hs_started x).
+    + (* nobody waits: the declarative reading agrees, nobody is started by this Start *)
+      split; simpl; try assumption;
+        [now rewrite Hr, app_nil_r | now rewrite Hpd, app_nil_r | now rewrite Hsd, app_nil_r | ].
+      intros n. rewrite Hf, spec_cfg_snoc, spec_started_snoc, spec_cfg_existsb. simpl.
+      destruct (spec_cfg n pre) eqn:E; [|reflexivity]. simpl.
+      destruct (spec_started n pre) eqn:Es; [reflexivity|]. exfalso.
+      specialize (Hf n). rewrite E, Es in Hf. unfold find_handler in Hf.
+      apply find_some in Hf as [Hin _]. unfold first_unstarted in Fu.
+      apply (find_none _ _ Fu) in Hin. discriminate.
+  - discriminate.
+  - split; simpl; try assumption; [now rewrite Hr, app_nil_r | now rewrite Hpd, app_nil_r | now rewrite Hsd, app_nil_r | ].
     intros n. symmetry. now apply Hsame.
 Qed.
 
-Theorem exec_inv ops : inv ops (exec rinit ops).
+Theorem exec_inv ops : plain ops = true -> inv ops (exec rinit ops).
 Proof.
-  induction ops as [|o ops IH] using rev_ind; [exact inv_init|].
-  rewrite exec_snoc. now apply inv_step.
+  induction ops as [|o ops IH] using rev_ind; intros Hp; [exact inv_init|].
+  unfold plain in Hp. rewrite forallb_app in Hp. apply andb_true_iff in Hp as [H1 H2].
+  simpl in H2. rewrite andb_true_r in H2.
+  rewrite exec_snoc. apply inv_step; [assumption|]. now apply IH.
+Qed.
+
+(** ** laws of the registration machine for ALL programs (Stop, re-added names, failing constructors) *)
+
+Lemma names_filter n l : NoDup (map hname l) -> NoDup (map hname (filter (fun hs => negb (name_is n hs)) l)).
+Proof.
+  induction l as [|a l IH]; simpl; [constructor|]. intros H. inversion H as [|? ? Ha Hl]; subst.
+  destruct (negb (name_is n a)); [|now apply IH]. simpl. constructor; [|now apply IH].
+  intros Hin. apply Ha. apply in_map_iff in Hin as (x & E & Hx). apply filter_In in Hx as [Hx _].
+  rewrite <- E. now apply in_map.
+Qed.
+
+Lemma step_nodup st o : NoDup (names st) -> NoDup (names (step st o)).
+Proof.
+  intros Hn. destruct o as [h|id app|hn id app|dd ff|dd ff| |sn|dl]; simpl; try assumption.
+  - destruct (find_handler (h_name h) st) eqn:F; [assumption|]. unfold names. simpl. rewrite map_app. simpl.
+    apply NoDup_app_one; [assumption|]. now apply find_none_not_in.
+  - destruct (first_unstarted st); [|assumption].
+    destruct (first_failing st (rev (pubdecs st))); [assumption|].
+    destruct (first_failing st (subdecs st)); [assumption|].
+    unfold names. simpl. rewrite map_map.
+    erewrite map_ext; [exact Hn|]. intros x. unfold hname, start_one. now destruct (hs_started x).
+  - destruct (find_handler sn st) as [[c [s|]]|]; try assumption. unfold names. simpl. now apply names_filter.
+Qed.
+
+Theorem names_nodup_all ops : NoDup (names (exec rinit ops)).
+Proof.
+  induction ops as [|o ops IH] using rev_ind; [constructor|]. rewrite exec_snoc. now apply step_nodup.
+Qed.
+
+(** registrations are never removed — not by Stop either: a handler re-added under a name inherits
+    what was registered for that NAME *)
+Theorem mws_all ops : mws (exec rinit ops) = regs_of ops.
+Proof.
+  induction ops as [|o ops IH] using rev_ind; [reflexivity|]. rewrite exec_snoc.
+  unfold regs_of. rewrite flat_map_app. fold (regs_of ops). rewrite <- IH. simpl.
+  destruct o as [h|id app|hn id app|dd ff|dd ff| |sn|dl]; simpl; rewrite ?app_nil_r; try reflexivity.
+  - now destruct (find_handler (h_name h) (exec rinit ops)).
+  - destruct (first_unstarted (exec rinit ops)); [|reflexivity].
+    destruct (first_failing _ (rev _)); [reflexivity|]. now destruct (first_failing _ (subdecs _)).
+  - now destruct (find_handler sn (exec rinit ops)) as [[c [s|]]|].
+Qed.
+
+(** a started handler is frozen: no operation except its own Stop changes what it holds *)
+Theorem started_frozen st o n h s :
+  find_handler n st = Some (HS h (Some s)) -> o <> OStop n ->
+  find_handler n (step st o) = Some (HS h (Some s)).
+Proof.
+  intros F Ho. destruct o as [h'|id app|hn id app|dd ff|dd ff| |sn|dl]; simpl; try assumption.
+  - destruct (find_handler (h_name h') st); [assumption|]. unfold find_handler in *. simpl.
+    rewrite find_snoc, F. reflexivity.
+  - destruct (first_unstarted st); [|assumption].
+    destruct (first_failing st (rev (pubdecs st))); [assumption|].
+    destruct (first_failing st (subdecs st)); [assumption|].
+    unfold find_handler in *. simpl. rewrite find_map_inv.
+    2:{ intros x. unfold name_is, start_one. now destruct (hs_started x). }
+    rewrite F. reflexivity.
+  - destruct (find_handler sn st) as [[c [s'|]]|] eqn:Fs; try assumption.
+    unfold find_handler in *. simpl.
+    assert (sn <> n) by (intros ->; now apply Ho).
+    clear Fs. induction (handlers st) as [|a l IH]; simpl in *; [discriminate|].
+    destruct (name_is n a) eqn:Ea.
+    + assert (name_is sn a = false).
+      { unfold name_is in *. apply N.eqb_eq in Ea. apply N.eqb_neq. congruence. }
+      rewrite H0. simpl. now rewrite Ea.
+    + destruct (negb (name_is sn a)); simpl; [rewrite Ea|]; now apply IH.
+Qed.
+
+(** a RunHandlers in which a decorator constructor fails starts nobody; one in which none fails
+    gives every waiting handler the registrations and decorator lists of that moment (plus the
+    publisher decorators earlier failed attempts left on its publisher) *)
+Theorem start_outcome st :
+  (forall d, (first_failing st (rev (pubdecs st)) = Some d \/
+              (first_failing st (rev (pubdecs st)) = None /\ first_failing st (subdecs st) = Some d)) ->
+        handlers (step st OStart) = handlers st)
+  /\ (first_failing st (rev (pubdecs st)) = None -> first_failing st (subdecs st) = None ->
+      handlers (step st OStart) = map (start_one st) (handlers st)).
+Proof.
+  split.
+  - intros d H. simpl. destruct (first_unstarted st); [|reflexivity].
+    destruct H as [H|[H1 H2]]; [now rewrite H|now rewrite H1, H2].
+  - intros H1 H2. simpl. destruct (first_unstarted st) eqn:Fu; [now rewrite H1, H2|].
+    symmetry. erewrite map_ext_in; [apply map_id|]. intros hs Hin. unfold start_one.
+    unfold first_unstarted in Fu. apply (find_none _ _ Fu) in Hin. unfold unstarted in Hin.
+    now destruct (hs_started hs).
 Qed.
 
 (** * Part 3: every delivery of every program is accepted by the property acceptors *)
@@ -329,13 +438,44 @@ Proof.
     now destruct (N.eqb (h_sub h) (d_sub d) && N.eqb (h_subtopic h) (d_topic d)).
 Qed.
 
+Lemma plain_app a b : plain (a ++ b) = true -> plain a = true /\ plain b = true.
+Proof. unfold plain. rewrite forallb_app. apply andb_true_iff. Qed.
+
 Lemma prog_ok_run (same : list ev -> list ev -> bool) (Hrefl : forall t, same t t = true) :
-  forall ops pre, prog_ok same pre ops (run (exec rinit pre) ops) = true.
+  forall ops pre, plain (pre ++ ops) = true -> prog_ok same pre ops (run (exec rinit pre) ops) = true.
 Proof.
-  induction ops as [|o ops IH]; intros pre; [reflexivity|].
-  destruct o as [h|id app|hn id app|dd|dd| |d]; cbn [run prog_ok]; try (rewrite <- exec_snoc; apply IH).
-  rewrite (deliver_ok same Hrefl pre _ d (exec_inv pre)). cbn [andb].
-  specialize (IH (pre ++ [ODeliver d])). now rewrite exec_snoc in IH.
+  induction ops as [|o ops IH]; intros pre Hp; [reflexivity|].
+  assert (Hp' : plain ((pre ++ [o]) ++ ops) = true) by now rewrite <- app_assoc.
+  destruct o as [h|id app|hn id app|dd ff|dd ff| |sn|d]; cbn [run prog_ok]; try (rewrite <- exec_snoc; now apply IH).
+  apply plain_app in Hp as [Hpre _].
+  rewrite (deliver_ok same Hrefl pre _ d (exec_inv pre Hpre)). cbn [andb].
+  specialize (IH (pre ++ [ODeliver d]) Hp'). now rewrite exec_snoc in IH.
+Qed.
+
+(** the same for ALL programs, against the state-based acceptor *)
+Lemma deliver_ok_st (same : list ev -> list ev -> bool) (Hrefl : forall t, same t t = true) st d :
+  NoDup (names st) -> obs_ok_st same st d (deliver st d) = true.
+Proof.
+  intros Hn. unfold obs_ok_st. apply andb_true_iff. split.
+  - apply forallb_forall. intros p Hp. rewrite deliver_flat in Hp. apply in_flat_map in Hp as (hs & Hin & Hp).
+    unfold one_copy in Hp. destruct (hs_started hs) as [s|] eqn:Es; [|destruct Hp].
+    destruct (receives d hs) eqn:Er; [|destruct Hp]. destruct Hp as [<-|[]]. simpl.
+    pose proof (find_in_nodup _ _ Hn Hin) as F. fold (find_handler (hname hs) st) in F.
+    unfold expected_st. rewrite F. destruct hs as [h st']. simpl in *. subst st'.
+    unfold receives in Er. simpl in Er. rewrite Er. now rewrite dispatch_spec.
+  - apply forallb_forall. intros n _. apply Nat.eqb_eq. rewrite deliver_flat, count_deliver by assumption.
+    fold (find_handler n st). unfold expected_st.
+    destruct (find_handler n st) as [[h [s|]]|]; try reflexivity. unfold one_copy, receives. simpl.
+    now destruct (N.eqb (h_sub h) (d_sub d) && N.eqb (h_subtopic h) (d_topic d)).
+Qed.
+
+Lemma prog_ok_st_run (same : list ev -> list ev -> bool) (Hrefl : forall t, same t t = true) :
+  forall ops st, NoDup (names st) -> prog_ok_st same st ops (run st ops) = true.
+Proof.
+  induction ops as [|o ops IH]; intros st Hn; [reflexivity|].
+  destruct o as [h|id app|hn id app|dd ff|dd ff| |sn|d]; cbn [run prog_ok_st];
+    try (apply IH; now apply step_nodup).
+  rewrite (deliver_ok_st same Hrefl st d Hn). cbn [andb]. now apply IH.
 Qed.
 
 Lemma list_eqb_refl {A} (eqb : A -> A -> bool) : (forall x, eqb x x = true) -> forall l, list_eqb eqb l l = true.
@@ -347,30 +487,39 @@ Lemma ev_eqb_refl e : ev_eqb e e = true.
 Proof.
   destruct e; simpl; rewrite ?N.eqb_refl, ?ctx_eqb_refl; try reflexivity.
   - apply list_eqb_refl, N.eqb_refl.
-  - apply list_eqb_refl. intros [m c]. unfold omsg_eqb. simpl. now rewrite N.eqb_refl, ctx_eqb_refl.
+  - apply list_eqb_refl. intros [[m c] [u b]]. unfold omsg_eqb, uctx_eqb. simpl.
+    rewrite N.eqb_refl, ctx_eqb_refl, N.eqb_refl. now destruct b.
   - now destruct ack.
 Qed.
 Lemma oev_eqb_refl e : oev_eqb e e = true.
 Proof. destruct e; simpl; rewrite ?N.eqb_refl, ?ctx_eqb_refl; reflexivity. Qed.
 
-Theorem c08_model_accepted ops : c08_monitor ops (run rinit ops) = true.
+Theorem c08_model_accepted ops : plain ops = true -> c08_monitor ops (run rinit ops) = true.
 Proof.
-  apply (prog_ok_run c08_same) with (pre := []). intros t. apply list_eqb_refl, ev_eqb_refl.
+  intros Hp. apply (prog_ok_run c08_same) with (pre := []); [|exact Hp]. intros t. apply list_eqb_refl, ev_eqb_refl.
 Qed.
-Theorem c09_model_accepted ops : c09_monitor ops (run rinit ops) = true.
+Theorem c09_model_accepted ops : plain ops = true -> c09_monitor ops (run rinit ops) = true.
 Proof.
-  apply (prog_ok_run c09_same) with (pre := []). intros t. apply list_eqb_refl, oev_eqb_refl.
+  intros Hp. apply (prog_ok_run c09_same) with (pre := []); [|exact Hp]. intros t. apply list_eqb_refl, oev_eqb_refl.
+Qed.
+Theorem c08_model_accepted_st ops : c08_monitor_st ops (run rinit ops) = true.
+Proof.
+  apply (prog_ok_st_run c08_same); [|constructor]. intros t. apply list_eqb_refl, ev_eqb_refl.
+Qed.
+Theorem c09_model_accepted_st ops : c09_monitor_st ops (run rinit ops) = true.
+Proof.
+  apply (prog_ok_st_run c09_same); [|constructor]. intros t. apply list_eqb_refl, oev_eqb_refl.
 Qed.
 
 (** * Part 4: the clauses of C08 / C09 as statements about [deliver (exec rinit ops)] *)
 
 (** ** who receives a delivery *)
-Lemma in_deliver_iff ops d n tr :
+Lemma in_deliver_iff ops d n tr : plain ops = true ->
   In (n, tr) (deliver (exec rinit ops) d) <->
   exists h s, spec_cfg n ops = Some h /\ spec_started n ops = Some s
               /\ h_sub h = d_sub d /\ h_subtopic h = d_topic d /\ tr = spec_trace h s d.
 Proof.
-  destruct (exec_inv ops) as [_ _ _ Hf Hn]. set (st := exec rinit ops) in *. split.
+  intros Hpl. destruct (exec_inv ops Hpl) as [_ _ _ Hf Hn _ _]. set (st := exec rinit ops) in *. split.
   - intros Hp. rewrite deliver_flat in Hp. apply in_flat_map in Hp as (hs & Hin & Hp).
     unfold one_copy in Hp. destruct (hs_started hs) as [s|] eqn:Es; [|destruct Hp].
     destruct (receives d hs) eqn:Er; [|destruct Hp]. destruct Hp as [Hp|[]]. injection Hp as Hname Htr.
@@ -396,7 +545,7 @@ Qed.
 
 Lemma deliver_nodup ops d : NoDup (map fst (deliver (exec rinit ops) d)).
 Proof.
-  destruct (exec_inv ops) as [_ _ _ _ Hn]. rewrite deliver_flat. unfold names in Hn.
+  pose proof (names_nodup_all ops) as Hn. rewrite deliver_flat. unfold names in Hn.
   induction (handlers (exec rinit ops)) as [|a l IH]; simpl; [constructor|].
   inversion Hn as [|? ? Ha Hl]; subst. rewrite map_app. unfold one_copy at 1.
   destruct (hs_started a); [|now apply IH]. destruct (receives d a); [|now apply IH].
@@ -427,7 +576,7 @@ Qed.
 Definition expected_publish (h : hcfg) (s : started) (d : delivery) : list (N * N * list omsg) :=
   match chain_outcome h s d, h_pub h with
   | Ret (x :: l), PReal id _ =>
-      [(id, h_pubtopic h, map (fun m => (m, out_ctx h (overlay (d_ctx d) h) m)) (x :: l))]
+      [(id, h_pubtopic h, map (fun m => (m, out_ctx h (overlay (d_ctx d) h) m, own_ctx d m)) (x :: l))]
   | _, _ => []
   end.
 
@@ -494,15 +643,16 @@ Lemma out_ctx_spec h c0 m :
   out_ctx h (overlay c0 h) m = overlay (if N.eqb m 0 then c0 else cx0) h.
 Proof. unfold out_ctx. destruct (N.eqb m 0); [apply overlay_idem|reflexivity]. Qed.
 
-Lemma produced_ctx h s d p t outs m c :
-  In (p, t, outs) (publish_calls (spec_trace h s d)) -> In (m, c) outs ->
-  c = overlay (if N.eqb m 0 then d_ctx d else cx0) h.
+Lemma produced_ctx h s d p t outs m c u :
+  In (p, t, outs) (publish_calls (spec_trace h s d)) -> In (m, c, u) outs ->
+  c = overlay (if N.eqb m 0 then d_ctx d else cx0) h /\ u = own_ctx d m.
 Proof.
   rewrite spec_publish_calls. unfold expected_publish.
   destruct (chain_outcome h s d) as [[|x l]|?|]; try (intros []).
   destruct (h_pub h); try (intros []; fail). intros [Hq|[]]. injection Hq as _ _ <-.
-  intros Hin. change (In (m, c) (map (fun m0 => (m0, out_ctx h (overlay (d_ctx d) h) m0)) (x :: l))) in Hin.
-  apply in_map_iff in Hin as (m' & E & _). injection E as <- <-. apply out_ctx_spec.
+  intros Hin.
+  change (In (m, c, u) (map (fun m0 => (m0, out_ctx h (overlay (d_ctx d) h) m0, own_ctx d m0)) (x :: l))) in Hin.
+  apply in_map_iff in Hin as (m' & E & _). injection E as <- <- <-. split; [apply out_ctx_spec|reflexivity].
 Qed.
 
 (** ** C09: the order projection of the prescribed trace, for ALL chains and decorator lists *)
@@ -565,12 +715,12 @@ Qed.
 Lemma find_app_some {A} (f : A -> bool) l1 l2 x : find f l1 = Some x -> find f (l1 ++ l2) = Some x.
 Proof. induction l1 as [|a l1 IH]; simpl; [discriminate|]. now destruct (f a). Qed.
 
-Theorem started_freezes pre post n h :
+Theorem started_freezes pre post n h : plain (pre ++ OStart :: post) = true ->
   spec_cfg n pre = Some h -> spec_started n pre = None ->
   find_handler n (exec rinit (pre ++ OStart :: post)) =
   Some (HS h (Some (ST (regs_of pre) (pdecs_of pre) (sdecs_of pre)))).
 Proof.
-  intros Hc Hs. destruct (exec_inv (pre ++ OStart :: post)) as [_ _ _ Hf _]. rewrite Hf.
+  intros Hpl Hc Hs. destruct (exec_inv (pre ++ OStart :: post) Hpl) as [_ _ _ Hf _ _ _]. rewrite Hf.
   assert (Hc' : spec_cfg n (pre ++ OStart :: post) = Some h).
   { unfold spec_cfg in *. destruct (find (is_add n) pre) eqn:F; [|discriminate].
     now rewrite (find_app_some _ _ _ _ F). }
@@ -580,19 +730,42 @@ Qed.
 
 (** * Part 5: the statements exported to Props/C08.v and Props/C09.v *)
 
+Lemma in_deliver_iff_st ops d n tr :
+  In (n, tr) (deliver (exec rinit ops) d) <->
+  exists h s, find_handler n (exec rinit ops) = Some (HS h (Some s))
+              /\ h_sub h = d_sub d /\ h_subtopic h = d_topic d /\ tr = dispatch h s d.
+Proof.
+  pose proof (names_nodup_all ops) as Hn. set (st := exec rinit ops) in *. split.
+  - intros Hp. rewrite deliver_flat in Hp. apply in_flat_map in Hp as (hs & Hin & Hp).
+    unfold one_copy in Hp. destruct (hs_started hs) as [s|] eqn:Es; [|destruct Hp].
+    destruct (receives d hs) eqn:Er; [|destruct Hp]. destruct Hp as [Hp|[]]. injection Hp as Hname Htr.
+    pose proof (find_in_nodup _ _ Hn Hin) as F. fold (find_handler (hname hs) st) in F. rewrite Hname in F.
+    destruct hs as [h st']. simpl in *. subst st'. exists h, s.
+    unfold receives in Er. simpl in Er. apply andb_true_iff in Er as [E1 E2]. apply N.eqb_eq in E1, E2. auto.
+  - intros (h & s & F & H1 & H2 & ->). apply find_some in F as [Hin Hname]. rewrite deliver_flat. apply in_flat_map.
+    exists (HS h (Some s)). split; [assumption|]. unfold one_copy, receives. simpl.
+    rewrite H1, H2, !N.eqb_refl. simpl. unfold name_is in Hname. simpl in Hname.
+    apply N.eqb_eq in Hname. left. unfold hname. simpl. now rewrite Hname.
+Qed.
+
 Lemma c08_right_function ops d :
   (forall n tr, In (n, tr) (deliver (exec rinit ops) d) <->
-      exists h s, spec_cfg n ops = Some h /\ spec_started n ops = Some s
+      exists h s, find_handler n (exec rinit ops) = Some (HS h (Some s))
                   /\ h_sub h = d_sub d /\ h_subtopic h = d_topic d /\ tr = dispatch h s d)
   /\ NoDup (map fst (deliver (exec rinit ops) d))
-  /\ (forall h s, fn_calls (dispatch h s d) = [(h_fn h, overlay (d_ctx d) h)]).
+  /\ (forall h s, fn_calls (dispatch h s d) = [(h_fn h, ctx_of h)]).
 Proof.
   split; [|split].
-  - intros n tr. rewrite in_deliver_iff. split; intros (h & s & H); exists h, s;
-      [rewrite dispatch_spec | rewrite <- dispatch_spec]; exact H.
+  - intros n tr. apply in_deliver_iff_st.
   - apply deliver_nodup.
   - intros h s. rewrite dispatch_spec. apply spec_fn_calls.
 Qed.
+
+(** for programs without Stop / failing constructors the wiring is the declarative reading *)
+Lemma c08_wiring_plain ops n : plain ops = true ->
+  find_handler n (exec rinit ops) =
+  match spec_cfg n ops with Some h => Some (HS h (spec_started n ops)) | None => None end.
+Proof. intros Hp. now destruct (exec_inv ops Hp) as [_ _ _ Hf _ _ _]. Qed.
 
 Lemma c08_publish_target h s d :
   publish_calls (dispatch h s d) = expected_publish h s d
@@ -621,11 +794,13 @@ Qed.
 
 Lemma c08_context_values h s d :
   fn_calls (dispatch h s d) = [(h_fn h, ctx_of h)]
-  /\ (forall p t outs m c, In (p, t, outs) (publish_calls (dispatch h s d)) -> In (m, c) outs -> c = ctx_of h).
+  /\ (forall p t outs m c u, In (p, t, outs) (publish_calls (dispatch h s d)) -> In (m, c, u) outs ->
+        c = ctx_of h /\ u = own_ctx d m).
 Proof.
   split.
   - rewrite dispatch_spec. apply spec_fn_calls.
-  - intros p t outs m c. rewrite dispatch_spec. intros H1 H2. now rewrite (produced_ctx _ _ _ _ _ _ _ _ H1 H2).
+  - intros p t outs m c u. rewrite dispatch_spec. intros H1 H2.
+    destruct (produced_ctx _ _ _ _ _ _ _ _ _ H1 H2) as [-> ->]. split; reflexivity.
 Qed.
 
 Lemma c08_context_pinned_refuted :
@@ -657,7 +832,7 @@ Proof.
     | Ret ((_ :: _) as outs) =>
         map (fun x : N => EPubDec x (h_pubtopic h) outs) (s_pubdecs s) ++
         match h_pub h with
-        | PReal id _ => [EPublish id (h_pubtopic h) (map (fun m0 : M => (m0, out_ctx h (overlay (d_ctx d) h) m0)) outs);
+        | PReal id _ => [EPublish id (h_pubtopic h) (map (fun m0 : M => (m0, out_ctx h (overlay (d_ctx d) h) m0, own_ctx d m0)) outs);
                          ESettle (accepts (d_pb d))]
         | _ => [ESettle false]
         end
